@@ -39,6 +39,25 @@ Theorem C09_equiv : forall lo hi segs mem selected, Forall wf_segment segs ->
 Proof. exact equiv_main. Qed.
 Print Assumptions C09_equiv.
 
+(* several aggregates in one statement (`select f(a), g(b), ..`): column i of the result is the single-column shortcut of
+   column i - it does not depend on the other columns, in particular not on a column that is all-null in some container *)
+Theorem C09_multi_columns_independent : forall n lo hi segs mem i, (i < n)%nat ->
+  nth i (agg_multi_short n lo hi segs mem) empty = agg_short lo hi (col_segments i segs) (col i mem).
+Proof. exact multi_short_nth. Qed.
+Theorem C09_multi_equiv : forall n lo hi segs mem (selected : nat -> list row),
+  (forall i, (i < n)%nat -> Forall wf_segment (col_segments i segs) /\
+                            Permutation (filter (in_range lo hi) (all_rows (col_segments i segs) (col i mem))) (selected i)) ->
+  agg_multi_short n lo hi segs mem = map (fun i => agg_rows (selected i)) (seq 0 n).
+Proof. exact multi_equiv. Qed.
+Print Assumptions C09_multi_equiv.
+
+(* a memtable that holds field 0 but not field 1 still contributes its field-0 rows (the situation of seeded change m3) *)
+Example C09_multi_example :
+  let seg := [(1, [Some 5; Some 1]); (2, [Some 6; None])] in
+  let mem := [(3, [Some 7; None]); (4, [Some 9; None])] in
+  map cnt (agg_multi_short 2 0 10 [seg] mem) = [4; 1] /\ map sum (agg_multi_short 2 0 10 [seg] mem) = [27; 1].
+Proof. vm_compute. split; reflexivity. Qed.
+
 (* non-vacuity: two segments and a memtable, range cutting through the first segment and covering the second *)
 Example C09_example :
   let s1 := mk_segment [(1, Some 4); (2, None); (3, Some (-2))] in
